@@ -144,3 +144,81 @@ def sccs(graph):
                         break
                 out.append(comp)
     return out
+
+
+_EXPAND = [None]
+
+
+def _expand_chunk(hs):
+    import hashlib
+    import traceback
+    try:
+        out = []
+        for h in hs:
+            succ, vio = _EXPAND[0](h)
+            out.append(([(hashlib.sha1(repr(k).encode()).hexdigest(), ev) for k, ev in succ], vio))
+        return True, out
+    except BaseException:  # noqa
+        return False, traceback.format_exc()
+
+
+def replay_bfs(expand, k0, procs=16, cap=None, min_parallel=48):
+    '''level-synchronous BFS for replay-based adapters (live objects are
+    rebuilt from the event history).  expand(history) must return
+    (successors, violations) with successors = [(canon_key, event)] and
+    violations = [(signature, what, history)].  One pool of forked workers is
+    created once (the adapter is inherited copy-on-write); levels are sharded
+    over it; canonical keys travel as digests.'''
+    import hashlib
+    import multiprocessing as mp
+    import os
+    from . import common
+    _EXPAND[0] = expand
+    procs = min(procs, int(os.environ.get('VERIF_PROCS', '16')))
+    seen = {hashlib.sha1(repr(k0).encode()).hexdigest()}
+    level = [[]]
+    transitions = 0
+    viols = []
+    capped = False
+    depth = 0
+    pool = None
+    try:
+        while level:
+            if len(level) >= min_parallel and procs > 1:
+                if pool is None:
+                    pool = mp.get_context('fork').Pool(procs)
+                n = procs * 4
+                chunks = [level[i::n] for i in range(n)]
+                chunks = [c for c in chunks if c]
+                outs = pool.map(_expand_chunk, chunks)
+                results = []
+                for hs, (ok, out) in zip(chunks, outs):
+                    if not ok:
+                        raise common.HarnessBroken('worker failed:\n' + out)
+                    results.extend(zip(hs, out))
+            else:
+                results = []
+                for h in level:
+                    ok, out = _expand_chunk([h])
+                    if not ok:
+                        raise common.HarnessBroken('expand failed:\n' + out)
+                    results.append((h, out[0]))
+            nxt = []
+            for h, (succ, vio) in results:
+                viols.extend(vio)
+                for nk, ev in succ:
+                    transitions += 1
+                    if nk not in seen:
+                        if cap and len(seen) >= cap:
+                            capped = True
+                            continue
+                        seen.add(nk)
+                        nxt.append(h + [ev])
+            level = nxt
+            depth += 1
+    finally:
+        if pool is not None:
+            pool.terminate()
+            pool.join()
+    return {'states': len(seen), 'transitions': transitions, 'violations': viols,
+            'capped': capped, 'depth': depth, 'keys': seen}
